@@ -3,6 +3,9 @@ mod adapt;
 mod c01;
 mod c02;
 mod c03;
+mod c04;
+mod c06;
+mod c14;
 mod dev;
 mod gen;
 mod kit;
@@ -62,6 +65,9 @@ fn main() {
         "C01" => run_check::<c01::C01>(&opts),
         "C02" => run_check::<c02::C02>(&opts),
         "C03" => run_check::<c03::C03>(&opts),
+        "C04" => run_check::<c04::C04>(&opts),
+        "C06" => run_check::<c06::C06>(&opts),
+        "C14" => run_check::<c14::C14>(&opts),
         "preflight" => match preflight::decoder_preflight() {
             Ok(()) => {
                 println!("preflight ok");
